@@ -36,6 +36,12 @@ theorem smul_scaled_gram (Q : Matrix n k α) (s : k → α) (r : α) :
     ((r • Q) * diagonal s) * ((r • Q) * diagonal s)ᵀ = (r * r) • (Q * diagonal (fun i => s i * s i) * Qᵀ) := by
   rw [Matrix.smul_mul, transpose_smul, Matrix.smul_mul, Matrix.mul_smul, smul_smul, scaled_gram]
 
+/-- Gram matrix of a scalar-scaled root (`ConstantMulLinearOperator(base_root, c ** ±0.5)`):
+`(r·R)(r·R)ᵀ = r²·(R Rᵀ)` — any shape of `R`. -/
+theorem constMulRootInv_gram (R : Matrix n k α) (r : α) :
+    (r • R) * (r • R)ᵀ = (r * r) • (R * Rᵀ) := by
+  rw [transpose_smul, Matrix.smul_mul, Matrix.mul_smul, smul_smul]
+
 /-- `Q diag(c,…,c) Qᵀ = c · Q Qᵀ`. -/
 theorem conj_const (Q : Matrix n k α) (c : α) :
     Q * diagonal (fun _ => c) * Qᵀ = c • (Q * Qᵀ) := by
